@@ -41,20 +41,13 @@ BLOCKS = "pytype/blocks/blocks.py"
 
 # -- R16.20 --------------------------------------------------------------------------
 
-def _closing_disjuncts(mod):
-  """Names of the flag helpers that close a block in _split_bytecode."""
-  sp = mod.func("_split_bytecode")
-  closers = [n for n in ast.walk(sp) if isinstance(n, ast.If) and isinstance(n.test, ast.BoolOp)
-             and isinstance(n.test.op, ast.Or)
-             and any(dotted(c.func) == "Block" for st in n.body for c in calls_in(st))]
-  if len(closers) != 1:
-    raise AnalysisError(f"{BLOCKS}: _split_bytecode's block-closing `if` not found")
-  out = []
-  for d in closers[0].test.values:
-    if isinstance(d, ast.Call) and isinstance(d.func, ast.Attribute) and not d.args \
-        and isinstance(d.func.value, ast.Name):
-      out.append(d.func.attr)
-  return out, closers[0]
+def _closing_disjuncts(mod, helper_names):
+  """Names of the flag helpers that, alone, close a block in _split_bytecode
+  (the predicate is read as a boolean formula, inline or through a helper
+  written with early returns: rules/c16.closing_predicate)."""
+  from rules.c16 import closing_predicate
+  cp = closing_predicate(mod, helper_names)
+  return [h for h in cp.flags if cp.closes_on(h)], cp.node
 
 
 def _merge_consumers(mod):
@@ -188,8 +181,8 @@ def r16_20(ctx):
            and any(isinstance(x, ast.Continue) for x in n.body)]
   if not skips:
     raise AnalysisError("compute_order no longer skips processed blocks; re-derive R16.20")
-  disj, closer = _closing_disjuncts(bmod)
   helpers = tab.helpers()
+  disj, closer = _closing_disjuncts(bmod, set(helpers))
   closing = [h for h in disj if h in helpers]
   if not closing:
     raise AnalysisError("_split_bytecode: no flag helper among the block-closing disjuncts")
